@@ -75,9 +75,10 @@ class G:
         r = self.rng
         kinds = ["simple", "simple", "assign", "cmt_after", "if", "while", "for", "case", "brace", "subshell",
                  "andor", "pipe", "cont", "squote", "dquote", "heredoc", "heredoc_q", "heredoc_dash", "heredoc2",
-                 "heredoc_pipe", "cmdsub", "arith", "dbracket", "func", "eval", "eval2", "bsrun", "bsrun", "bsrun_dq", "bsrun_sq"]
+                 "heredoc_pipe", "cmdsub", "arith", "dbracket", "func", "eval", "eval2", "bsrun", "bsrun", "bsrun_dq", "bsrun_sq",
+                 "cont_empty", "cont_empty", "cont_comment", "cont_heredoc", "ansic", "backquote", "varexp", "varexp_dq", "varassign", "dparen"]
         if depth >= 2:
-            kinds = ["simple", "assign", "cont", "squote", "heredoc", "andor", "eval"]
+            kinds = ["simple", "assign", "cont", "squote", "heredoc", "andor", "eval", "cont_empty", "varexp", "ansic"]
         k = r.choice(kinds)
         self.kinds.append(k)
         i = self.pid()
@@ -127,6 +128,25 @@ class G:
             return ["echo r%d:$((1 +" % i, "  2))"]
         if k == "dbracket":
             return ["if [[ a == a &&", "  b == b ]]; then " + self.probe("y") + "; fi"]
+        if k == "cont_empty":
+            # a continuation whose next line is empty: the only way a complete command's text ends in two newlines
+            return ["printf '%%s\\n' k%d:$LINENO two \\" % i, ""]
+        if k == "cont_comment":
+            return ["echo k%d:$LINENO \\" % i, "# joined comment 'q"]
+        if k == "cont_heredoc":
+            return ["cat \\", "<<E%d" % i, "c%d:$LINENO" % i, "E%d" % i]
+        if k == "ansic":
+            return ["echo $'n%d:" % i, "two' $LINENO"]
+        if k == "backquote":
+            return ["echo `echo q%d" % i, "echo two` $LINENO"]
+        if k == "varexp":
+            return ["v%d=${UNSET_X:-a%d" % (i, i), "b}; echo \"$v%d\" $LINENO" % i]
+        if k == "varexp_dq":
+            return ['echo "${UNSET_Y:-q%d' % i, 'r}" $LINENO']
+        if k == "varassign":
+            return [": ${g%d:=hello" % i, "world}; echo \"$g%d\" $LINENO" % i]
+        if k == "dparen":
+            return ["(( z%d = 1 +" % i, "  2 )); echo z%d:$z%d:$LINENO" % (i, i)]
         if k == "bsrun":
             # a line ending in a run of 1..5 backslashes: an odd run ends in a line continuation
             n = r.randrange(1, 6)
@@ -158,12 +178,24 @@ class G:
             elif x < 0.22:
                 segs.append([r.choice(["# a comment 'with quote \\", "#!/bin/sh", "  # indented $("])])
                 self.kinds.append("comment")
+            elif x < 0.27:
+                # an extglob pattern spanning lines (bash needs the option set on an earlier line)
+                segs.append(["shopt -s extglob"])
+                segs.append(["echo @(zz%d|" % self.pid(), "yy) $LINENO"])
+                self.kinds.append("extglob")
             else:
                 c = self.command(0)
                 segs.append(c)
                 if c[0].endswith("{") and (c[0].startswith("f") or c[0].startswith("function")):
                     name = c[0].replace("function ", "").replace("() {", "").replace(" {", "")
                     segs.append([name])
+            if r.random() < 0.5:
+                segs.append([self.probe("t")])        # $LINENO right after the construct
+        if r.random() < 0.6:
+            # recorded function source lines and a last probe
+            n = self.pid()
+            segs += [["report%d() {" % n, "  echo in-function%d:$LINENO" % n, "}"], ["report%d" % n]]
+        segs.append([self.probe("end")])
         x = r.random()
         if x < 0.15:
             segs.append(["exit %d" % r.choice([0, 3, 7])])
@@ -187,6 +219,14 @@ def prog_chunks(segs, strip=False):
 
 
 FIXED_PROGRAMS = [
+    # one multi-line construct per kind of unterminated token the tokenizer distinguishes, continuations followed by an
+    # empty line / a comment line / a here-document, and $LINENO after every construct and inside a function
+    [["echo start:$LINENO"], ["printf '%s\\n' one two \\", ""], ["echo after:$LINENO"], ["echo k \\", "# joined"], ["echo a1:$LINENO"],
+     ["cat \\", "<<E", "h:$LINENO", "E"], ["echo a2:$LINENO"], ["echo $'n:", "two' $LINENO"], ["echo `echo q", "echo two` $LINENO"],
+     ["v=${UNSET_X:-a", "b}; echo \"$v\" $LINENO"], ['echo "${UNSET_Y:-q', 'r}" $LINENO'], [": ${g:=hello", "world}"], ["echo \"$g\" $LINENO"],
+     ["echo u:$(", " echo inner", ") $LINENO"], ["echo r:$((1 +", " 2)) $LINENO"], ["shopt -s extglob"], ["echo @(zz|", "yy) $LINENO"],
+     ["(( z = 1 +", "  2 )); echo z:$z:$LINENO"], ["echo 'sq", "x' $LINENO"], ['echo "dq', 'x" $LINENO'],
+     ["report() {", "  echo in-function:$LINENO", "}"], ["report"], ["echo end:$LINENO"]],
     [["echo a:$LINENO"], ["if true", "then", "  echo b:$LINENO", "fi"], [""], ["# comment"],
      ["cat <<E", "body $LINENO", "E"], ["echo c \\", "  $LINENO"], ["f() {", "  echo f:$LINENO", "}"], ["f"], ["echo d:$LINENO"]],
     [["trap 'echo bye:$?' EXIT"], ["echo one"], ["exit 3"], ["echo not-reached"]],
@@ -320,7 +360,7 @@ def gen_programs(ctx, n):
     for _ in range(n):
         g = G(ctx.rng)
         segs = g.program()
-        if sum(len(s) for s in segs) > 30 or HANG_CLASS.search(prog_text(segs)):
+        if sum(len(s) for s in segs) > 40 or HANG_CLASS.search(prog_text(segs)):
             continue
         # one program in six ends without a newline (not after a blank line: that would be a different program)
         strip = ctx.rng.random() < 0.17 and segs[-1] != [""]
@@ -358,6 +398,17 @@ def check_chunks_and_prefixes(ctx, progs, workdir, res):
     res["evaluations"] += len(keys)
     for c in want.values():
         res["dist_class"][c] = res["dist_class"].get(c, 0) + 1
+    # every kind of unterminated token that the tokenizer can raise must be passed through by some generated program
+    import re as _re
+    tsrc = open(os.path.join(core.REPO, "brush-parser/src/tokenizer.rs"), encoding="utf-8").read()
+    em = _re.search(r"pub enum TokenizerError \{(.*?)\n\}", tsrc, flags=_re.S)
+    kinds_all = _re.findall(r"^\s{4}(Unterminated\w+)", em.group(1), flags=_re.M) if em else []
+    raised = [v for v in kinds_all if _re.search(r"TokenizerError::%s\b" % v, tsrc)]
+    missing = [v for v in raised if ("tok:" + v) not in res["dist_class"]]
+    res["dist_modes"]["unterminated_kinds_exercised"] = {v: res["dist_class"].get("tok:" + v, 0) for v in raised}
+    res["dist_modes"]["unterminated_kinds_never_constructed_by_the_tokenizer"] = [v for v in kinds_all if v not in raised]
+    if missing or not raised:
+        raise core.CheckBroken("the program generators no longer pass through the unterminated-token kind(s) %s" % (missing or "none found"))
     # model chunks
     mcases = []
     for t, allx in zip(texts, per_prog):
@@ -1326,7 +1377,7 @@ def run(ctx):
     res = new_res()
     workdir = tempfile.mkdtemp(prefix="c15-", dir=core.SCRATCH if os.path.isdir(core.SCRATCH) else "/var/tmp")
     try:
-        progs = gen_programs(ctx, 240 if ctx.quick else 1500)
+        progs = gen_programs(ctx, 170 if ctx.quick else 1500)
         check_lru(ctx, res)
         check_purity(ctx, res)
         check_regex_purity(ctx, workdir, res)
